@@ -341,7 +341,7 @@ pub fn run(run: &Run, id: &str) {
                         for &d in ds.iter() {
                             let what = format!("{id}|{maker}|{d}");
                             let t1 = std::time::Instant::now();
-                            let r = crate::watch::tagged("deep", &what, || case(id, maker, d));
+                            let r = crate::watch::tagged_with_limit("deep", &what, if d > 1100 { crate::watch::BIG_CASE_LIMIT_S } else { crate::watch::LIMIT_S }, || case(id, maker, d));
                             if std::env::var("NVCHECK_DEEP_TIMING").is_ok() {
                                 eprintln!("deep {what} {} ms", t1.elapsed().as_millis());
                             }
